@@ -115,6 +115,7 @@ inductive Op
   | setPath (id : Nat) (p : Bytes)
   | addQuery (q : Bytes)
   | resetTo (inp : List Item)
+  | resetSelf (idxs : List Nat)                               -- reset to a selection of the object's own options
   | clone | swap | reset
   | find (id : Nat) | has (id : Nat)
   | getFirst (as : String) (id : Nat)                         -- getu32 / getstr / getbytes
@@ -187,6 +188,10 @@ def judgeQuery (st : RefState) (err : String) (rets : List String) (ob : Obs) : 
 
 def totalLen (l : List Item) : Nat := l.foldl (fun acc x => acc + x.2.length) 0
 
+/-- the options an index list selects from a list (indices taken modulo the length) -/
+def selectOwn {β : Type} (l : List β) (idxs : List Nat) : List β :=
+  idxs.filterMap (fun i => l[i % l.length]?)
+
 def judgeStep (st : RefState) (op : Op) (ob : Obs) : String × RefState :=
   if ob.panic then ("violates no-crash: the operation panicked (runtime error)", st) else
   let l := st.cur.items
@@ -210,6 +215,7 @@ def judgeStep (st : RefState) (op : Op) (ob : Obs) : String × RefState :=
     | some l' => judgeEdit st ⟨[], false, l', if p = [] then 0 else totalLen ((segments p).map (fun s => (id, s)))⟩ ob
   | .addQuery q => judgeEdit st ⟨[], false, ins (uriQueryId, q) l, q.length⟩ ob
   | .resetTo inp => judgeEdit st ⟨[], false, resetTo inp, totalLen inp⟩ ob
+  | .resetSelf idxs => judgeEdit st ⟨[], false, resetTo (selectOwn l idxs), totalLen (selectOwn l idxs)⟩ ob
   | .reset =>
     let st' := { st with cur := ⟨[], st.cur.rem.map (fun _ => st.bufSize)⟩ }
     if ob.items != [] then ("violates list-equals-reference: the list is not empty after reset", st') else ("ok", st')
